@@ -19,7 +19,8 @@ ASSUMPTIONS = ["clang's macro-expanded AST of the working tree's C file is the c
                "x86-64 Linux data model (int 32, long 64, pid_t int)"]
 NOT_COVERED = ["'the kernel itself reports exactly that value and every other process is unchanged' is the system "
                "calls' contract: covered by the bounded live round trip on a child + bystander, not proved",
-               "psutil_proc_cpu_affinity_get (growing cpu-set loop): bounded live round trip only"]
+               "termination of the affinity scan and completeness of its result list (soundness of every item and the "
+               "exit condition are proved)"]
 ENV = dict(BASE_ENV)
 
 
@@ -130,6 +131,55 @@ C_CONTRACTS = [
     cvc.CContract("C18", "psutil/arch/linux/proc.c", "psutil_proc_ioprio_set", filt="ioprio",
                   enums={"IOPRIO_WHO_PROCESS": 1}, post=post_ioprio_set, replay="c18:ioprio_set"),
 ]
+
+
+# --- psutil_proc_cpu_affinity_get: growing cpu set + popcount-driven scan ------------------------------------------
+
+def aff_inv0(I):
+    n = I.var("ncpus").get(I)
+    return [("ncpus > 0 and a multiple of 64", Z.And(n.t > 0, Z.URem(n.t, cvc.bvc(64, 32)) == 0))]
+
+
+def aff_inv1(I):
+    g = I.ghost["popcount"]
+    cpu, cnt = I.var("cpu").get(I), I.var("count").get(I)
+    c64 = Z.SignExt(32, cpu.t)
+    return [("0 <= cpu <= 8*setsize", Z.And(cpu.t >= 0, Z.ULE(c64, g["N"]))),
+            ("count == number of set bits from cpu on", cnt.t == g["P"](c64)),
+            ("the kernel's mask is not written", g["bits"].content is g["content"])]
+
+
+def aff_lemmas(I):
+    c64 = Z.SignExt(32, I.var("cpu").get(I).t)
+    return cvc.popcount_axioms(I, c64) + cvc.popcount_axioms(I, c64 - 1)
+
+
+def aff_append(I, args):
+    g = I.ghost["popcount"]
+    v = args[1].obj.info["value"]
+    return [("every CPU reported has its bit set in the kernel's mask, below 8*setsize",
+             Z.And(cvc.cpu_bit(g["bits"], v.t), Z.ULT(v.t, g["N"])))]
+
+
+def post_aff_get(I, x):
+    g = x.ghost
+    if x.null or "popcount" not in g:
+        return []
+    # the scan stopped because no set bit is left: P(cpu) == count == 0
+    cpu, cnt = I.var("cpu").get(I), I.var("count").get(I)
+    return [("the scan ends only when no set bit is left (count == P(cpu) == 0)",
+             Z.And(cnt.t == 0, g["popcount"]["P"](Z.SignExt(32, cpu.t)) == 0)),
+            ("the cpu set is released exactly once", all(not m.alive for m in g.get("heap", [])))]
+
+
+AFF_GET = cvc.CContract(
+    "C18", "psutil/arch/linux/proc.c", "psutil_proc_cpu_affinity_get", filt="affinity_get",
+    loops={0: cvc.LoopCut(inv=aff_inv0, dead=["mask"]), 1: cvc.LoopCut(inv=aff_inv1, lemmas=aff_lemmas)},
+    checks={"PyList_Append": aff_append}, post=post_aff_get, replay="c18:live",
+    note="cpu set doubled without overflow until the kernel accepts it; every access inside the allocation of the "
+         "current size; freed exactly once on every path; ghost popcount P: count == P(cpu) drives the scan, every "
+         "reported CPU has its bit set")
+C_CONTRACTS.append(AFF_GET)
 CPROOFS = C_CONTRACTS
 
 
